@@ -375,6 +375,36 @@ def answer (stream : String) (f : Array String) : Ans :=
         else if !allDq then "unquoted-delivery"
         else "dq-command-substitution"
       { a with s := spec, guard := if guard then "1" else "0", cls := cls }
+    else if g 2 = "c11" then
+      -- prog ARG, ARG = [dq] pre ++ ($(cmd) | `cmd`) ++ post [dq]
+      let p := unhex (g 3)
+      let pre := unhex (g 4)
+      let cmd := unhex (g 6)
+      let post := unhex (g 7)
+      let dq := g 8 = "1"
+      let core : Str := if g 5 = "p" then pre ++ '$' :: '(' :: (cmd ++ ')' :: post) else pre ++ '`' :: (cmd ++ '`' :: post)
+      let arg : Str := if dq then ['"'] ++ core ++ ['"'] else core
+      if p ++ ' ' :: arg ≠ line then { a with s := "RENDER-MISMATCH" } else
+      let out := unhex (g 9)
+      let stripNl (s : Str) : Str := (s.reverse.dropWhile (· = '\n')).reverse
+      let expected := pre ++ stripNl out ++ post
+      let trimOk := trim out = stripNl out
+      let rescan := reDollarParen out || (out.filter (· = '`')).length ≥ 2
+      let plainOut := out.all (fun c => isAlphaA c || isDigitA c || c = '\n' || c = '-' || c = '.' || c = '/' || c = '_')
+      let innerPre := cmd.any (fun c => c = '$' || c = '{' || c = '*' || c = '~' || c = '\\')
+      let bqSuffix := !dq && g 5 = "q" && pre = [] && post ≠ []
+      let guard := trimOk && !rescan && (dq || plainOut) && expected ≠ [] && !innerPre && !bqSuffix
+      let cls : String :=
+        if guard then "-"
+        else if expected = [] then "outside-statement:empty-word"
+        else if bqSuffix then "backquote-suffix"
+        else if innerPre then "inner-preexpanded"
+        else if rescan then "output-rescanned"
+        else if !trimOk then "trim-both-ends"
+        else "unquoted-output"
+      { a with s := if cls.startsWith "outside-statement" then "-" else
+                 obsOut { stages := [([p, expected], [], none)], envs := [], background := false },
+               guard := if guard then "1" else "0", cls := cls }
     else a
   | "bseq" =>
     -- a sequence of builtin lines on one shell: alias / unalias / `use <tokens…>` (expand_alias on parse_line)
